@@ -22,6 +22,9 @@ def GLegal : GOp → Prop
 instance : DecidablePred GLegal := fun op => by
   cases op <;> unfold GLegal <;> infer_instance
 
+theorem gLegalB_iff {op : GOp} : gLegalB op = true ↔ GLegal op := by
+  cases op <;> simp [gLegalB, GLegal, isForestB_iff]
+
 private theorem forall_set {sys : GSys} {h : Nat} {g' : DG} (hall : ∀ g ∈ sys, IsForest g) (hg : IsForest g') :
     ∀ g ∈ sys.set h g', IsForest g := fun g hm => by
   rcases List.mem_or_eq_of_mem_set hm with h' | rfl
